@@ -9,7 +9,7 @@ from permute import npc as NPC
 
 COQ_HEADER = """From PV Require Import Lib.Base Model.Npc Corr.C08.
 Open Scope Q_scope."""
-RULE = ("related-input pairs on matrices B<=10, n<=4 with ties, int and float dtypes: raise one observed p-value; permute pvalues "
+RULE = ("call sessions (2-5 npc calls with different combiners/plus1/p on the SAME ndarray objects, each compared with the stateless model); related-input pairs on matrices B<=10, n<=4 with ties, int and float dtypes: raise one observed p-value; permute pvalues "
         "and columns together; replace a column by a*x+b (a>0), x^3 or exp(x/8) (strictly increasing), also across the int/float "
         "dtype boundary; combiner values on grids; malformed shapes; non-trivial = base result strictly between its bounds and a "
         "column with ties; distinct by full input; relabel relation asserted exactly only when no two different vectors tie in exact "
@@ -42,6 +42,19 @@ def cases(tier, rng, dist):
         else:
             c["col"] = None
         yield c
+    # sessions: the SAME ndarray objects are passed to a sequence of calls (different combiners / plus1 / p),
+    # as a user who compares combining functions on one permutation distribution does; every call is compared
+    # with the stateless model, so results that depend on the call history are exposed
+    for _ in range(120 if tier == "quick" else 1200):
+        B, n = rng.randint(2, 12), rng.randint(2, 4)
+        m = gen_matrix(rng, B, n, rng.randint(1, 4))
+        seq = []
+        for _k in range(rng.randint(2, 5)):
+            spec = rng.choice(["fisher", "liptak", "tippett"])
+            hi = 7 if spec == "liptak" else 8
+            seq.append({"comb": spec, "plus1": rng.random() < 0.7, "p": [str(Fraction(rng.randint(1, hi), 8)) for _ in range(n)],
+                        "same_p": rng.random() < 0.5})
+        yield {"f": "session", "distr": [[str(v) for v in r] for r in m], "seq": seq}
     for _ in range(60 if tier == "quick" else 600):
         n = rng.randint(1, 6)
         yield {"f": "comb", "p": [str(Fraction(rng.randint(1, 16), 16)) for _ in range(n)], "size": [rng.choice([1, 4, 9, 16, 25, 100]) for _ in range(n)]}
@@ -52,8 +65,8 @@ def cases(tier, rng, dist):
 
 
 def call(p, m, spec, plus1, dtype=float):
-    d = np.array([[float(v) for v in r] for r in m]).astype(dtype)
-    pv = np.array([float(x) for x in p])
+    d = interned(np.array([[float(v) for v in r] for r in m]).astype(dtype))
+    pv = interned(np.array([float(x) for x in p]))
     return list(guarded(lambda: float(NPC.npc(pv, d, make_comb(spec), plus1=plus1))))
 
 
@@ -78,6 +91,18 @@ def run(c):
         p = np.array([float(Fraction(x)) for x in c["p"]]); size = np.array(c["size"])
         return {"fisher": float(NPC.fisher(p)), "liptak": float(NPC.liptak(p)) if all(x < 1 for x in p) else None,
                 "tippett": float(NPC.tippett(p)), "inw": float(NPC.inverse_n_weight(p, size))}
+    if c["f"] == "session":
+        d = np.array([[float(Fraction(v)) for v in r] for r in c["distr"]]); d0 = d.copy()
+        pv = np.array([float(Fraction(x)) for x in c["seq"][0]["p"]])
+        out = []
+        for st in c["seq"]:
+            if not st["same_p"]:
+                pv = np.array([float(Fraction(x)) for x in st["p"]])
+            cur = [Fraction(float(x)) for x in pv]
+            pv0 = pv.copy()
+            r = list(guarded(lambda: float(NPC.npc(pv, d, st["comb"], plus1=st["plus1"]))))
+            out.append({"r": r, "p": [str(x) for x in cur], "untouched": bool((d == d0).all() and (pv == pv0).all())})
+        return {"steps": out}
     if c["f"] == "bad":
         p = np.array([float(Fraction(x)) for x in c["p"]]); d = np.zeros((3, c["ncol"]))
         return {"npc": list(guarded(lambda: float(NPC.npc(p, d)))), "fwer": list(guarded(lambda: [float(v) for v in NPC.fwer_minp(p, d)]))}
@@ -102,6 +127,21 @@ def oracle(c, o):
         for k in ("npc", "fwer"):
             if o[k][0] != "exc" or o[k][1] != "ValueError":
                 return {"why": f"{k} with {len(c['p'])} p-values and {c['ncol']} columns did not raise ValueError: {o[k]}", "cls": f"{k}:shape-guard"}
+        return None
+    if c["f"] == "session":
+        m = [[Fraction(v) for v in r] for r in c["distr"]]
+        for k, (st, so) in enumerate(zip(c["seq"], o["steps"])):
+            if not so["untouched"]:
+                return {"why": f"npc call {k} of the session modified its arguments", "cls": "npc:mutates-arguments"}
+            e = exact_npc([Fraction(x) for x in so["p"]], m, st["comb"], st["plus1"])
+            if e[0] == "exc" or e[2]:
+                continue
+            if so["r"][0] != "ok":
+                return {"why": f"npc raised in call {k} of a session: {so['r']}", "cls": "npc:raises"}
+            if abs(Fraction(so["r"][1]) - e[1]) > Fraction(1, 10**10):
+                hist = [(t["comb"], t["plus1"]) for t in c["seq"][:k + 1]]
+                return {"why": f"call {k} of a session on the same distr object returned {so['r'][1]}, the rank p-value is {e[1]} (history {hist})",
+                        "cls": "npc:history-dependent"}
         return None
     r1, r2 = o["r1"], o["r2"]
     m = [[Fraction(v) for v in r] for r in c["distr"]]; p = [Fraction(x) for x in c["p"]]
@@ -140,6 +180,17 @@ def extra_terms(c, o):
         p = [Fraction(x) for x in c["p"]]
         out.append(f"TipCase {clist(p, cq)} {cq(Fraction(o['tippett']))}")
         out.append(f"InwCase {clist(p, cq)} {clist([Fraction(1, math.isqrt(s)) for s in c['size']], cq)} {cq(Fraction(o['inw']))}")
+    elif c["f"] == "session":
+        m = [[Fraction(v) for v in r] for r in c["distr"]]
+        for st, so in zip(c["seq"], o["steps"]):
+            pp = [Fraction(x) for x in so["p"]]
+            e = exact_npc(pp, m, st["comb"], st["plus1"])
+            if e[0] == "ok" and e[2]:
+                SKIPPED[0] += 1; continue
+            tab = e[3] if e[0] == "ok" else {}
+            r = so["r"]
+            impl = cres(("ok", Fraction(r[1])) if r[0] == "ok" else r, cq)
+            out.append(f"NpcCase {clist(pp, cq)} {qmat(m)} {comb_coq(st['comb'], tab)} {cbool(st['plus1'])} {impl}")
     elif c["f"] == "rel":
         m = [[Fraction(v) for v in r] for r in c["distr"]]; p = [Fraction(x) for x in c["p"]]
         p2, m2, _ = second(c)
@@ -156,6 +207,8 @@ def extra_terms(c, o):
 
 
 def nontrivial(c, o):
+    if c["f"] == "session":
+        return len({t["comb"] for t in c["seq"]}) > 1
     if c["f"] != "rel" or o["r1"][0] != "ok":
         return False
     cols = list(zip(*c["distr"]))
